@@ -129,13 +129,21 @@ def run_packing(cfg, out):
     total = 0
     for mtu in cfg["mtus"]:
         r = rng("C09", cfg["seed"], "packing", mtu)
-        with T.Run(r, mtu=mtu, dt=r.choice([1 / 60, 1 / 30])) as run:
+        # in half of the worlds the connection is opened under ANOTHER MTU and the MTU under test is set afterwards (the documented
+        # runtime use of setMTU): everything below then runs on connection objects that were created before the change
+        pre_mtu = mtu if r.random() < 0.5 else r.choice([m for m in (512, 576, 1000, 1200, 1500) if m != mtu])
+        with T.Run(r, mtu=pre_mtu, dt=r.choice([1 / 60, 1 / 30])) as run:
             w = run.world
             P = run.C.Packet
-            if P.MTU != mtu:
-                raise RuntimeError("MTU not applied")
             w.net.set(c2s=L.Policy(loss=0.05, dup=0.05, delay=(0.003, 0.02)), s2c=L.Policy(loss=0.05, dup=0.05, delay=(0.003, 0.02)))
             c = w.connect_client()
+            if pre_mtu != mtu:
+                w.step(5)
+                P.setMTU(mtu)
+                run.mtu = mtu
+                run.c.inc("mtu_changes_on_open_connections")
+            if P.MTU != mtu:
+                raise RuntimeError("MTU not applied")
             c.updates_per_step = 2
             run.report.context = {"mtu": mtu}
             maxp = P.MAX_PAYLOAD_SIZE
